@@ -42,8 +42,11 @@ def Tab.foldS (T : Tab) (s : Str) : Str := s.flatMap T.fold
 
 def asciiWord (c : Char) : Bool := c.isAlphanum || c == '_'
 
+/-- str.lower() on an ASCII character -/
+def lowerAscii (c : Char) : Char := if 65 ≤ c.toNat ∧ c.toNat ≤ 90 then Char.ofNat (c.toNat + 32) else c
+
 /-- `Tab` for pure ASCII text -/
-def asciiTab : Tab := { word := asciiWord, lower := fun c => [c.toLower], fold := fun c => [c.toLower] }
+def asciiTab : Tab := { word := asciiWord, lower := fun c => [lowerAscii c], fold := fun c => [lowerAscii c] }
 
 /-! ## paths -/
 
@@ -219,9 +222,11 @@ def splitSign : Str → Bool × Str
 
 def applySign (neg : Bool) (n : Nat) : Int := if neg then -(n : Int) else (n : Int)
 
-/-- mirrors _integerValue_to_int: BINARY_VALUE, OCTAL_VALUE, DECIMAL_VALUE, HEX_VALUE in this order.
-    (`$` also matches before a final newline; a keybinding value never contains one, not modelled.) -/
-def intLit (s : Str) : Option Int :=
+/-- `^…$` without re.MULTILINE: `$` also matches before one final newline, and `int()` / `float()` strip it -/
+def chomp (s : Str) : Str := if s.getLast? = some '\n' then s.dropLast else s
+
+/-- BINARY_VALUE, OCTAL_VALUE, DECIMAL_VALUE, HEX_VALUE in this order -/
+def intLitCore (s : Str) : Option Int :=
   let (neg, r) := splitSign s
   match r.getLast? with
   | none => none
@@ -241,7 +246,10 @@ def intLit (s : Str) : Option Int :=
           | [] => none
         else none
 
-def lowerAsciiS (s : Str) : Str := s.map Char.toLower
+/-- mirrors _integerValue_to_int -/
+def intLit (s : Str) : Option Int := intLitCore (chomp s)
+
+def lowerAsciiS (s : Str) : Str := s.map lowerAscii
 
 /-- `[0-9]*\.[0-9]+(?:E[+\-]?[0-9]+)?` on the text after the sign -/
 def realBody (r : Str) : Bool :=
@@ -260,9 +268,11 @@ def realBody (r : Str) : Bool :=
 
 /-- mirrors _realValue_to_float: REAL_VALUE (IGNORECASE).  The dotless/dotted Turkish i that
     IGNORECASE|UNICODE lets match `I` make `float()` raise ValueError: same outcome as no match. -/
-def realLit (s : Str) : Bool :=
+def realLitCore (s : Str) : Bool :=
   let l := lowerAsciiS s
   l == "inf".toList || l == "-inf".toList || l == "nan".toList || realBody (splitSign s).2
+
+def realLit (s : Str) : Bool := realLitCore (chomp s)
 
 /-! ## parsing: CIMDateTime(str) as a recogniser (ASCII digits only) -/
 
@@ -348,6 +358,33 @@ structure Head where
 /-- `m.group(n) or None` -/
 def orNone (s : Str) : Option Str := if s = [] then none else some s
 
+/-- `^(?:([\w\-]+):)?` — (scheme group took part, remaining text) -/
+def stripScheme (T : Tab) (s : Str) : Bool × Str :=
+  match s.dropWhile (schemeChar T) with
+  | ':' :: '/' :: r => if s.takeWhile (schemeChar T) ≠ [] then (true, '/' :: r) else (false, s)
+  | _ => (false, s)
+
+/-- `(?://([\w.:@\[\]\-%]*))?` -/
+def stripAuth (T : Tab) (r1 : Str) : Option Str × Str :=
+  match r1 with
+  | '/' :: '/' :: r => (some (r.takeWhile (authChar T)), r.dropWhile (authChar T))
+  | _ => (none, r1)
+
+/-- `(?:/|^/?)` — (remaining text, still at position 0) -/
+def stripSlash (atStart : Bool) (r2 : Str) : Option (Str × Bool) :=
+  match r2 with
+  | '/' :: r => some (r, false)
+  | _ => if atStart then some (r2, true) else none
+
+/-- `(\w+(?:/\w+)*)?(?::|^:?)` — (namespace, text starting at the class name) -/
+def splitNs (T : Tab) (pos0 : Bool) (r3 : Str) : Option (Option Str × Str) :=
+  match nsOk (r3.takeWhile (nsChar T)), r3.dropWhile (nsChar T) with
+  | true, ':' :: r5 => some (some (r3.takeWhile (nsChar T)), r5)
+  | _, _ =>
+    match r3 with
+    | ':' :: r5 => some (none, r5)
+    | _ => if pos0 then some (none, r3) else none
+
 /-- the common prefix of WBEM_URI_CLASSPATH_REGEXP and WBEM_URI_INSTANCEPATH_REGEXP:
     `^(?:([\w\-]+):)?(?://([\w.:@\[\]\-%]*))?(?:/|^/?)(\w+(?:/\w+)*)?(?::|^:?)`
     The backtracking search of `re` is deterministic here (see design.d/C07.md):
@@ -355,36 +392,14 @@ def orNone (s : Str) : Option Str := if s = [] then none else some s
     starts with `//`; the namespace is the maximal run of word characters and slashes when that run is
     well-formed and followed by ':'; `^` alternatives apply only at position 0. -/
 def parseHead (T : Tab) (s : Str) : Option Head :=
-  -- scheme
-  let sch := s.takeWhile (schemeChar T)
-  let afterSch := s.dropWhile (schemeChar T)
-  let (hasScheme, r1) :=
-    match afterSch with
-    | ':' :: '/' :: r => if sch ≠ [] then (true, '/' :: r) else (false, s)
-    | _ => (false, s)
-  -- authority
-  let (auth, r2) : Option Str × Str :=
-    match r1 with
-    | '/' :: '/' :: r => (some (r.takeWhile (authChar T)), r.dropWhile (authChar T))
-    | _ => (none, r1)
-  let atStart := !hasScheme && auth.isNone
-  -- `(?:/|^/?)`
-  let r3? : Option (Str × Bool) :=          -- (rest, still at position 0)
-    match r2 with
-    | '/' :: r => some (r, false)
-    | _ => if atStart then some (r2, true) else none
-  match r3? with
+  let a := stripScheme T s
+  let b := stripAuth T a.2
+  match stripSlash (!a.1 && b.1.isNone) b.2 with
   | none => none
   | some (r3, pos0) =>
-    let host := auth.bind orNone
-    let p := r3.takeWhile (nsChar T)
-    let r4 := r3.dropWhile (nsChar T)
-    match nsOk p, r4 with
-    | true, ':' :: r5 => some { host := host, ns := some p, rest := r5 }
-    | _, _ =>
-      match r3 with
-      | ':' :: r5 => some { host := host, ns := none, rest := r5 }
-      | _ => if pos0 then some { host := host, ns := none, rest := r3 } else none
+    match splitNs T pos0 r3 with
+    | none => none
+    | some (ns, rest) => some { host := b.1.bind orNone, ns := ns, rest := rest }
 
 /-- `$`: end of text or before a final newline -/
 def atEnd (s : Str) : Bool := s == [] || s == ['\n']
